@@ -172,6 +172,7 @@ func c19Bytes(g *Rng) []byte {
 
 func TestC19(t *testing.T) {
 	r := NewRun(t, "C19")
+	r.AutoClass = true
 	defer r.Close()
 	if lines := ReplayLines(); lines != nil {
 		for _, l := range lines {
